@@ -4213,18 +4213,17 @@ func bracketClose(e ast.Expr) (close token.Pos, empty, bracketed bool) {
 //
 //   - No bracket (bracketed == false, e.g. a bare `a + b` operand):
 //     the comment cannot be interior, so it trails.
-//   - Non-empty bracket: a genuine interior header attaches to the
-//     first element, not the bracket, so a comment on the bracket
-//     node itself trails.
-//   - Empty bracket: the trailing and interior forms collapse to the
-//     same node and RelPos (the parser has no inner element to anchor
-//     an interior comment to), so we compare source offsets. With no
-//     usable offsets (a programmatic AST that set cg.Line but no
-//     source positions) we cannot tell the two apart, and prefer the
-//     trailing form `a & {}, // c` over moving the comment inside the
-//     brackets.
+//   - Bracket: the trailing and interior forms collapse to the same
+//     node and RelPos (for an empty bracket the parser has no inner
+//     element to anchor an interior comment to, and for a list element
+//     or comprehension body it hangs `{ // c` on the bracket node
+//     rather than on the first element), so we compare source offsets.
+//     With no usable offsets (a programmatic AST that set cg.Line but
+//     no source positions) we cannot tell the two apart, and prefer
+//     the trailing form `a & {}, // c` over moving the comment inside
+//     the brackets.
 func commentTrailsBracket(cg *ast.CommentGroup, close token.Pos, empty, bracketed bool) bool {
-	if !bracketed || !empty {
+	if !bracketed {
 		return true
 	}
 	if len(cg.List) > 0 {
